@@ -159,6 +159,22 @@ def step (s : DState) (line : String) : DState × String :=
         let t := takePenalty s.cfg.unit s.queue v amount
         (s, s!"ok {t.total} {showVal t.newVal} Q [{",".intercalate (t.queue.map fun r => toString r.final)}]")
     | _, _ => (s, "bad-op")
+  | "POOL" :: p :: h :: sched =>
+    -- POOL parent hdr  a<i> | b | e ...   evidences are referred to by their index among the EV lines
+    match nat? p, nat? h with
+    | some p, some h =>
+      let env := mkEnv s p h
+      let evArr := s.evs.toArray
+      let part := fun (l : List Nat) =>
+        let es := l.filterMap (fun i => evArr[i]?)
+        let vs := (processAll env (initSt s) [] es).verdicts
+        (selectBy isPending l vs, selectBy isConfirmed l vs, selectBy isDropped l vs)
+      let evts : List (PoolEvt Nat) := sched.filterMap fun t =>
+        if t == "b" then some .sealBegin else if t == "e" then some .sealEnd
+        else if t.startsWith "a" then (nat? (t.drop 1).toString).map .arrive else none
+      let r := poolRun part { pool := [], waiting := [], snap := none, confirmed := [], discarded := [] } evts
+      (s, s!"ok POOL [{showNats (r.pool ++ r.waiting)}] C [{showNats r.confirmed}] D [{showNats r.discarded}]")
+    | _, _ => (s, "bad-op")
   | ["PAY", h, r, i] =>
     match bytes? h, nat? r, nat? i with
     | some h, some r, some i => (s, hexN (payload h r i))
